@@ -1,5 +1,6 @@
 --------------------------- MODULE MC_PluginOrder ---------------------------
 EXTENDS PluginOrder
+RegVersionsBig == {<<1, 0, 0>>, <<1, 2, 0>>, <<1, 2, 3>>, <<2, 0, 0>>, <<0, 9, 1>>, <<1, 10, 0>>}
 RegVersionsDef == {<<1, 0, 0>>, <<1, 2, 0>>, <<1, 2, 3>>, <<2, 0, 0>>, <<0, 9, 1>>}
 (* the transitivity of the order over all triples is checked once, as an assumption *)
 ASSUME Transitive
